@@ -23,6 +23,7 @@ def gen_unit(r, i, tier):
         c["mode"] = "plain"
     if i % 3 == 0:
         c["mode"] = "plain"
+    c["touch"] = bool(i % 4 == 1)      # the population is looked at before its log-likelihood column is assigned (see c06.run_unit_impl)
     c["beta"] = float(r.choice([0.0, r.uniform(0, 0.9)]))
     # make crossing populations likely: moderate spreads scaled so that the crossing is inside (beta, 1)
     if c["kind"] in ("moderate", "ties", "dominant") and r.random() < 0.7:
@@ -103,6 +104,11 @@ def check_runs(chk, cfgs, tol=1e-6):
             if src is not None:
                 other = int(cfg["n_samples"] // 4) if j % 2 else int(cfg["n_samples"] * 3)
                 cfg2 = {**cfg, "checkpoint_every": 1, "n_samples": other}
+                if j % 6 == 5:
+                    # ... and ANOTHER target efficiency than the interrupted run used: the target in force is the one of the resumed call
+                    cfg2["target_efficiency"] = (0.8, 0.25, (0.6, 0.9))[(j // 6) % 3]
+                    cfg2.pop("min_step", None)
+                    cfg2["_check_from"] = int(r1["ckpts"][-1]["iteration"])     # the iterations before the checkpoint were made under the old target
                 try:
                     runs.append(({**cfg2, "resumed_with_n_samples": other, "original_n_samples": cfg["n_samples"]},
                                  smcrun.resume_smc(cfg2, src, watchdog_iters=300)))
@@ -134,6 +140,8 @@ def check_runs(chk, cfgs, tol=1e-6):
         betas = [0.0] + rec["beta"]
         te = full["target_efficiency"]
         for t in range(len(rec["beta"])):
+            if t < int(cfg.get("_check_from", 0)):
+                continue
             pop, b0, b1 = rec["pops"][t], betas[t], betas[t + 1]
             target = te if isinstance(te, float) else te[0] + (te[1] - te[0]) * b0 ** full["target_efficiency_rate"]
             case = {"level": "run", "cfg": cfg, "iteration": t + 1}
